@@ -24,7 +24,7 @@ def owned(kind):
 def case_text(c):
     k = c['kind']
     if k in ('off', 'dec'):
-        s = 'Region(add=%s%s)' % (c['add'], ' sub=%s' % c['sub'] if c['sub'] else '')
+        s = 'Region(add=%s%s%s)' % (c['add'], ' sub=%s' % c['sub'] if c['sub'] else '', ' island=%s' % c['isl'] if c.get('isl') else '')
         return ('Offset of ' if k == 'off' else 'Decompose of ') + s.replace(' ', '')
     if k == 'sharp':
         return 'Offset of polygon[' + ' '.join('%g,%g' % (v[0] / 2.0, v[1] / 2.0) for v in c['c']) + ']'
@@ -39,41 +39,43 @@ def case_text(c):
 
 # ---- classification of the known double-inversion defect (F-C12-1) -------------------------------------------
 def _collapsing(c, delta, pixels):
-    """True iff every given pixel lies in a bounded edge-connected component of S (S = the region for delta < 0, its
-    complement for delta > 0) whose Chebyshev erosion by |delta| is empty, i.e. in a contour that the offset must
-    remove entirely (an outline narrower than 2|delta| in both axes / a hole that must close)."""
+    """True iff every given pixel lies within Chebyshev distance |delta| of a bounded edge-connected component of S
+    (S = the region for delta < 0, its complement for delta > 0) whose Chebyshev erosion by |delta| is empty, i.e.
+    next to a contour that the offset must remove entirely (an outline narrower than 2|delta| in both axes / a hole
+    that must close): there the double-inverted contour re-appears."""
     K = c['K']; W = 2 * K
     A = set(c['A'])
     S = A if delta < 0 else set(range(W * W)) - A
     e = int(abs(delta))
     if e == 0 or not pixels:
         return False
-    def comp(p):
-        seen = {p}; todo = [p]
+    U, seen = set(), set()
+    for p in S:
+        if p in seen:
+            continue
+        cm = {p}; todo = [p]
         while todo:
             q = todo.pop(); x, y = q % W, q // W
             for dx, dy in ((1, 0), (-1, 0), (0, 1), (0, -1)):
                 nx, ny = x + dx, y + dy
                 if 0 <= nx < W and 0 <= ny < W:
                     r = nx + W * ny
-                    if r in S and r not in seen:
-                        seen.add(r); todo.append(r)
-        return seen
-    done = set()
-    for p in pixels:
-        if p not in S:
-            return False
-        if p in done:
-            continue
-        cm = comp(p)
-        done |= cm
+                    if r in S and r not in cm:
+                        cm.add(r); todo.append(r)
+        seen |= cm
+        ok = True
         for q in cm:
             x, y = q % W, q // W
             if x in (0, W - 1) or y in (0, W - 1):
-                return False                      # unbounded part of the complement
-            if all(0 <= x + dx < W and 0 <= y + dy < W and (x + dx) + W * (y + dy) in cm
-                   for dx in range(-e, e + 1) for dy in range(-e, e + 1)):
-                return False                      # survives the erosion
+                ok = False; break                 # the unbounded part of the complement
+            if all((x + dx) + W * (y + dy) in cm for dx in range(-e, e + 1) for dy in range(-e, e + 1)):
+                ok = False; break                 # survives the erosion
+        if ok:
+            U |= cm
+    for p in pixels:
+        x, y = p % W, p // W
+        if not any(abs(q % W - x) <= e and abs(q // W - y) <= e for q in U):
+            return False
     return True
 
 
@@ -229,7 +231,7 @@ def main(tier):
 
     # heavy cases (Offset: 40 offsets each) first, spread evenly over the chunks
     reg = B['reg']
-    off = [c for c in reg if c.startswith('{"kind":"off"')] if False else [c for c in reg if json.loads(c)['kind'] == 'off']
+    off = [c for c in reg if json.loads(c)["kind"] == "off"]
     rest = [c for c in reg if json.loads(c)['kind'] != 'off']
     run_cases(chk, tally, off, 'off', jobs=14, per_job=30)
     run_cases(chk, tally, B['sharp'], 'sharp', jobs=6, per_job=1)
@@ -265,8 +267,8 @@ def main(tier):
         'rule': 'distinct cases printed by TLC from Xoff.tla. Regions: every lattice rectangle of the 4x4 grid, every pair of rectangles '
                 'of the 3x3 grid (overlapping, edge-touching, vertex-touching, apart), the 4x4 / 3x4 block minus every rectangle '
                 '(holes, notches, cuts into two pieces) [thorough: pairs on the 4x4 grid, a thinned set of two-minus-one triples]; each '
-                'region x {Miter limit 2 / 3.5, Round with 3 / 4 / 8 / 16 segments, Square, Bevel} x delta in -2..2 (one Offset call each), '
-                'and once for Decompose and for Hull of its rectangles (3 spellings). Sharp polygons: 6 convex polygons with 14..90 degree '
+                'region x {Miter limit 2 / 3.5, Round with 3 / 5 / 8 / 16 segments, Square, Bevel} x delta in -2..2 (one Offset call each), '
+                'and once for Decompose and for Hull of its rectangles (3 spellings); Decompose also on a 6x6 block minus a hole plus an island inside the hole (nested outlines). Sharp polygons: 6 convex polygons with 14..90 degree '
                 'corners x {Miter limit 2/3/5/10, Round, Square, Bevel} x delta. Hull: every set of <= 4 [thorough <= 6] points and every set '
                 'of >= 14 points of the 4x4 grid, each in 4 spellings (order reversed, points repeated, split over two contours). Simplify: '
                 'rectangles with every subset of redundant boundary lattice points, a box with near-collinear vertices displaced by '
